@@ -186,7 +186,32 @@ CHECKS.update({
              "sniffing is C18's."),
 })
 
+CHECKS.update({
+    "C09": dict(
+        engine="hx_mem", category="exploration", design_ref="DESIGN.md section 4 C09",
+        technique="runtime monitoring: allocation monitor (peak requested bytes through lzma_allocator) against memory limits and lzma_*_memusage() estimates; MEMLIMIT_ERROR -> lzma_memusage -> lzma_memlimit_set -> resume loop compared with the unlimited run",
+        text="Files declaring dictionaries from 4 KiB to 64 MiB (thorough 1.5 GiB) are decoded by the stream, threaded, auto, "
+             "file-info, .lzma and .lz decoders under limits swept around the measured need; the peak of bytes requested from "
+             "the allocator must stay under limit + a fixed allowance, a MEMLIMIT_ERROR must report the needed amount and the "
+             "decode must finish identically after raising the limit to it; the threaded decoder must respect "
+             "memlimit_threading whenever one thread fits. Encoder/decoder estimates are compared with measured peaks.",
+        note="Counts requested bytes only (no malloc overhead, no thread stacks); allowance 32 KiB + 1 KiB per thread (largest "
+             "measured excess is in the evidence); configurations sampled; the xz tool's memlimit options are thorough-tier."),
+    "C10": dict(
+        engine="hx_mem", category="fault_enumeration", design_ref="DESIGN.md section 4 C10",
+        technique="runtime monitoring: fault-injecting lzma_allocator with live-block table; every k-th allocation failure (single and from-k) enumerated per API scenario plus random subsets; handle-reuse histories; ASan",
+        text="26 API scenarios (all coder inits and coding loops incl. threaded, index operations, filter-chain handling, string "
+             "conversions, header parsers, single-call coders) each get a clean run that counts N allocations and then every "
+             "k <= N+2 as a single failure and as fail-from-k, plus random failure subsets; monitors: clean MEM_ERROR/NULL or a "
+             "correct result, no double/unknown free, nothing live after *_end, nothing left by a failed init of a fresh "
+             "handle, caller-owned objects unchanged; random handle-reuse histories with failures must end with an empty "
+             "live set and a usable handle.",
+        note="Exhaustive in k per scenario; scenarios are a catalogue (small inputs); threaded coders make k a global ordinal."),
+})
+
 ENGINES += [
+    {"name": "hx_mem", "path": "harness/hx_mem.c", "serves_properties": ["C09", "C10"],
+     "kind_free_text": "monitoring / fault-injecting lzma_allocator engines"},
     {"name": "hx_fmt", "path": "harness/hx_fmt.c", "serves_properties": ["C03", "C05", "C16"],
      "kind_free_text": "format-conformance monitors built on harness/ref/refdec.c (independent decoder) and harness/ref/synth.c (independent synthesiser)"},
     {"name": "hx_rt+refdec", "path": "harness/hx_rt.c", "serves_properties": ["C02"],
